@@ -121,6 +121,13 @@ def derive_read(rng, exons, kind, delta):
         else:
             s = ex[-1][1] + rng.randint(200, 500)
             ex = ex + [(s, s + rng.randint(3, 12))]
+    elif kind == "fake_terminal_exon_both" and n >= 2:
+        # a spurious micro-exon on BOTH ends of the same read (the corrector removes the left one first, then the right one)
+        s = ex[0][0] - rng.randint(200, 500)
+        if s <= 10:
+            return None
+        e_ = ex[-1][1] + rng.randint(200, 500)
+        ex = [(s, s + rng.randint(3, 12))] + ex + [(e_, e_ + rng.randint(3, 12))]
     elif kind == "intron_retention" and n >= 2:
         i = rng.randint(0, n - 2)
         ex = ex[:i] + [(ex[i][0], ex[i + 1][1])] + ex[i + 2:]
@@ -170,7 +177,7 @@ def derive_read(rng, exons, kind, delta):
 
 
 READ_KINDS = ["exact", "truncated", "jitter", "terminal_left_misaligned", "terminal_right_misaligned", "terminal_both_misaligned",
-              "skipped_exon", "fake_terminal_exon", "intron_retention", "intron_shift", "novel_exon", "partial_intron_retention", "novel_intron_in_exon"]
+              "skipped_exon", "fake_terminal_exon", "intron_retention", "intron_shift", "novel_exon", "partial_intron_retention", "novel_intron_in_exon", "fake_terminal_exon_both"]
 
 
 def assign(gene_info, params, read_exons, polya=(-1, -1, -1, -1), trimmed_blocks=None):
